@@ -6,7 +6,7 @@ from __future__ import annotations
 import ast
 import re
 
-from ..astutil import call_attr, canon_locals, calls_in, guard_facts, parent_map, resolved_guard_facts, unparse, walk_local, text_facts
+from ..astutil import call_attr, canon_locals, dispatch_tables, calls_in, guard_facts, parent_map, resolved_guard_facts, unparse, walk_local, text_facts
 from ..cfg import CFG
 from ..dataflow import reaching_defs, resolved_text
 from ..report import Finding, Report
@@ -208,11 +208,12 @@ def check_tables(idx: Index, rep: Report) -> None:
             r.ok(inst, f"{po.loc} {c.name}: {expr} on {sem} representatives, guarded")
     f = idx.func(CP, "_fold_const_operation")
     got = {}
-    for m in [n for n in walk_local(f.node) if isinstance(n, ast.Match)]:
-        for c in m.cases:
-            if isinstance(c.pattern, ast.MatchValue):
-                k = unparse(c.pattern.value).split(".")[-1]
-                ops = [type(x.op) for s in c.body for x in ast.walk(s) if isinstance(x, ast.BinOp) and unparse(x.left) == "lhs.value.data" and unparse(x.right) == "rhs.value.data"]
+    lp_, rp_ = f.node.args.args[1].arg, f.node.args.args[2].arg
+    for _s, tbl_, _d, _n in dispatch_tables(f.node):
+        for key_, body_ in tbl_.items():
+            if re.fullmatch(r"[\w.]+", key_):
+                k = key_.split(".")[-1]
+                ops = [type(x.op) for s in body_ for x in ast.walk(s) if isinstance(x, ast.BinOp) and unparse(x.left) == f"{lp_}.value.data" and unparse(x.right) == f"{rp_}.value.data"]
                 got[k] = {ast.Add: "+", ast.Sub: "-", ast.Mult: "*", ast.Div: "/"}.get(ops[0]) if ops else None
     for k, sym in FOP.items():
         inst = f"_fold_const_operation:{k}"
